@@ -246,11 +246,11 @@ func (s *memSocket) Dial(address string) (socket.Conn, error) {
 	}
 	hook := n.DialHook
 	n.mu.Unlock()
-	if hook != nil {
-		hook(address, open)
-	}
 	if l == nil {
 		return nil, ErrRefused
+	}
+	if hook != nil {
+		hook(address, open)
 	}
 	a, b := newHalf(), newHalf()
 	a.record, b.record = n.Record, n.Record
